@@ -4,6 +4,7 @@ import XV.Props.C03
 import XV.Lemmas.CrashCheck
 import XV.Lemmas.CrashSteps
 import XV.Lemmas.CrashRestart
+import XV.Lemmas.SkipLedger
 /-!
 C06 — crash consistency at every storage-write boundary.
 
@@ -28,7 +29,15 @@ and over the trace, no enumeration):
   (b) `crash_ledger_invariant`;
   (c) `crash_walk_resume`, `crash_during_restart`, `crash_recovery_confluent`, `crash_recovery_canonical`,
       `crash_recovery_same_tables`; refuted: `crash_recovery_same_state_statement` (the pool is NOT recovered);
-  (d) `crash_irrev_along_walk`, `crash_irrev_monotone`.
+  (d) `crash_irrev_along_walk`, `crash_irrev_monotone`;
+  (e) the skip list of a walk (repaired `recoverUnconfirmedTx`): `node_walk_skip_complete` — the list a node's ledger
+      supplies (`ledgerSkip`, the filter of the driver's `walkEnv`) names every pending transaction the chain walked to
+      confirms, by the ledger invariant of C04 —, `node_walk_keeps_invariants`. The walk theorems take the hypothesis
+      `SkipsConfirmed` where they took "a pending transaction that the new branch confirms has a token input" (`hre`).
+      In `runOp` / `opTrace` / `crashStates` the environment of a history is fixed, so its skip list is the same for every
+      walk of the history; `SkipsConfirmed` only asks completeness, which a list that names too much also meets (naming
+      a transaction that is not confirmed on the chain walked to merely drops it from the pool). Supplying the list per
+      walk from the node's ledger (as C01 `chain_refines` does with `HOp.walk … skip`) is open for the crash model.
 What is taken as hypothesis: the crash theorems reduce "every crash state is good" to "the nodes of the UNINTERRUPTED
 run between two operations are good" plus side conditions of the walks. For the C01 half (`SInv`) the uninterrupted
 run is handled here too, from per-operation side conditions (`SStep`, `crash_history_canonical`); the one place
@@ -792,5 +801,47 @@ example : ∀ x ∈ crashStates cEnv cN cOps,
     have h1 := crash_history_invariants cEnv cG cN cOps cHistory x hx
     have h2 := crash_ledger_invariant cEnv cN cOps (XV.C04.genesis_inv 1 [0]) (by decide) cLedgerSteps x hx
     ⟨h1.1, h1.2.1, h1.2.2.1, h2.2.1, h2.2.2⟩
+
+-- ------------------------------------------------------------------ 4. the skip list the ledger supplies for a walk
+
+/-- **the skip list a node's ledger supplies for a walk is complete** (repaired `recoverUnconfirmedTx`,
+`isConfirmedOnCurrentChain`; `ledgerSkip` is the filter of the driver's `walkEnv`: `XV.Chain.walkEnv_eq`): if the ledger
+satisfies the invariant of C04 and stores the chain of `dest` as main-chain blocks with the transactions and heights of
+the environment, then every pending transaction that the chain of `dest` confirms is in the list — which is the
+hypothesis `SkipsConfirmed` of the walk theorems of C01 / C02, for the environment the walk runs in -/
+theorem node_walk_skip_complete (e : Env) (n : Node) (dest : Nat) (hpl : ParentLower e)
+    (I : XV.Ledger.LedgerInv n.l)
+    (hm : XV.Snapshot.LedgerMatches n.l e (ancestors e (e.blocks.length + 1) dest)) :
+    SkipsConfirmed (e.withSkip (ledgerSkip n.l n.s.pool dest)) n.s
+      (blockTxs e (ancestors e (e.blocks.length + 1) dest).reverse) :=
+  fun i hi hc => ledgerSkip_skipsConfirmed n.l e n.s dest hpl I hm i hi hc
+
+/-- **a node that walks with the list its ledger supplies keeps the joint invariant** — tokens, key versions and chain
+shape over one ghost log (C01 `walk_LedgerAll_chain_full_withSkip`), in every outcome of the walk, with NO hypothesis on
+the re-submitted transactions and none on the skip list: it is discharged by the ledger invariant of C04. Of the code as
+found (nothing skipped) this was false: C01 `walk_as_found_readmits_confirmed`. -/
+theorem node_walk_keeps_invariants (e : Env) (n : Node) (lh : Int) (dest : Nat) (prune : Bool) (C : List Nat)
+    (hpl : ParentLower e) (hgen : ChainLog e {} []) (h : LedgerAll e n.s C) (hc : ChainLog e n.s C)
+    (hids : ∀ bi ∈ (undoTodo e n.s.pointer dest).2, (e.block bi).id = bi)
+    (hnd : (blockTxs e (ancestors e (e.blocks.length + 1) dest).reverse).Nodup)
+    (hblk : ∀ bi ∈ (undoTodo e n.s.pointer dest).2, (∀ i ∈ (e.block bi).txs, (e.tx i).id = i) ∧
+      (∀ i ∈ (e.block bi).txs, (e.tx i).coinbase = true → (e.tx i).ins = [] ∧ feeOf (e.tx i).outs = 0) ∧
+      (∀ i ∈ (e.block bi).txs, ((e.tx i).kout.map (·.key)).Nodup))
+    (I : XV.Ledger.LedgerInv n.l)
+    (hm : XV.Snapshot.LedgerMatches n.l e (ancestors e (e.blocks.length + 1) dest)) :
+    ∃ C', LedgerAll e (walk (e.withSkip (ledgerSkip n.l n.s.pool dest)) n.s lh dest prune).1 C' ∧
+      ChainLog e (walk (e.withSkip (ledgerSkip n.l n.s.pool dest)) n.s lh dest prune).1 C' ∧
+      ((walk (e.withSkip (ledgerSkip n.l n.s.pool dest)) n.s lh dest prune).2 = true →
+        C' = blockTxs e (ancestors e (e.blocks.length + 1) dest).reverse) :=
+  walk_LedgerAll_chain_full_withSkip e _ n.s lh dest prune C hpl hgen h hc hids hnd hblk
+    (fun i hi hcf => ledgerSkip_skipsConfirmed n.l e n.s dest hpl I hm i hi hcf)
+
+-- the scenario of defect (1) at the level of the ledger tables: genesis block 1 = [10]; the pending transaction 50; the
+-- peer's block 3 = [30 (award), 50] on 1 is confirmed and becomes the tip. For the walk to 3 the ledger supplies [50]; for
+-- a walk to 1 (before the confirmation, or back) nothing — 50 is not on that chain, it has to be re-admitted
+example :
+    let l0 := XV.Ledger.genesis 1 [10]
+    let l1 := (XV.Ledger.confirm l0 3 1 [(30, true), (50, false)]).1
+    l1.tip = 3 ∧ ledgerSkip l1 [50] 3 = [50] ∧ ledgerSkip l0 [50] 1 = [] ∧ ledgerSkip l1 [50] 1 = [] := by decide
 
 end XV.C06
